@@ -4,7 +4,7 @@ import itertools
 import numpy as np
 from hypothesis import strategies as st
 
-from vf.core import Decline, Prop, Violation, case_hash, innermost_funsor_frame
+from vf.core import robust_gen, Decline, Prop, Violation, case_hash, innermost_funsor_frame
 from vf.gen import G, Opts, SeedSource, gauss_leaf, gen_expr
 from vf.lang import Oracle, OutOfDomain, close, int_points, real_points, show, typeof
 
@@ -66,7 +66,7 @@ class C19(Prop):
     cases = {"quick": 3000, "thorough": 200000}
 
     def strategy(self, tier):
-        return st.integers(0, 2**40).map(gen_case)
+        return st.integers(0, 2**40).map(robust_gen(gen_case))
 
     def describe(self, case):
         return str(case)
